@@ -14,7 +14,10 @@ RULE = ('C08 cases plus start / kill / state / promise-value calls between frame
         'cannot have finished, so that restart + return + promise value occur) or short; at '
         'the end the harness drops all its references and reports which generators are still '
         'alive (weakref); non-trivial = a successful kill followed later by a successful '
-        'start of the same generator, or an in-body kill')
+        'start of the same generator, or an in-body kill; number types (float / int / '
+        'Fraction / bool), generators advanced outside the processor before start, '
+        'World.process with other processors, CoroutinePromise.kill / .state and the '
+        '@desper.coroutine decorator with world= as described for C08')
 TRUSTED = [
     'Coq 8.16.1 kernel + vm_compute (evaluation of C09_verdict on the observed traces)',
     'hand-written model Coro/Model.v tied to /repo by this correspondence run '
